@@ -868,6 +868,9 @@ pub fn minimise(env: &Env, plan: &ProcPlan, class: &str) -> (ProcPlan, usize) {
     });
     best.lines = kept;
     for i in 0..best.lines.len() {
+        if minimisation_expired() {
+            break;
+        }
         let base = best.clone();
         let s = best.lines[i].clone();
         if s.chars().count() > 400 {
